@@ -1,6 +1,7 @@
 (* C20 — Priority queues: stable minimum extraction and non-aliasing keys.
    This file holds only statements; proofs live in Proofs/. *)
 Require Import NX.Base.Prelude NX.Model.PQ NX.Proofs.PQProofs.
+Require Import NX.Model.IPQ NX.Model.IPQSpec NX.Proofs.IPQRefine NX.Proofs.IPQSpecProofs.
 
 (* The scheduler's queue (model of util/priority_queue.rs), from empty, under
    every sequence of insert/pull/peek, answers exactly like the specification
@@ -37,4 +38,67 @@ Example c20_pq_nonvacuous :
      PPeek; PPull; PPull; PInsert (3, 1%N) 5; PPull; PPull; PPull; PPull]%Z
   = [RUnit; RUnit; RUnit; RUnit; RSome (3, 0%N) 4; RSome (3, 0%N) 4; RSome (3, 1%N) 2;
      RUnit; RSome (3, 1%N) 3; RSome (3, 1%N) 5; RSome (5, 0%N) 1; RNone]%Z.
+Proof. vm_compute. reflexivity. Qed.
+
+
+(* ------------------------------------------------------------------------------------------
+   The keyed variant (model of util/indexed_priority_queue.rs: array heap cross-indexed with a
+   slab, free list, epochs).  From empty, under every sequence of insert / pull / peek /
+   peek_key / len / extract(key of the n-th insertion), the implementation model never fails an
+   indexing operation (no IRPanic) and answers exactly like the list-with-epochs specification
+   Model/IPQSpec.v. *)
+Theorem c20_ipq_refines :
+  forall (V : Type) (ops : list (ipq_op V)),
+    ipq_run (ipq_empty, []) ops = a_run pq_empty ops.
+Proof. exact ipq_refines. Qed.
+Print Assumptions c20_ipq_refines.
+
+(* the specification's answers are those of its states *)
+Theorem c20_ipq_spec_answers :
+  forall (V : Type) (ops : list (ipq_op V)) (a : pq V) (o : ipq_op V),
+    a_run a (ops ++ [o]) = a_run a ops ++ [snd (a_step (a_exec V a ops) o)].
+Proof. exact a_run_snoc. Qed.
+Print Assumptions c20_ipq_spec_answers.
+
+(* Non-aliasing keys: after any operation sequence, extraction through the key of the n-th
+   insertion yields nothing (and changes nothing), or yields exactly the pair the n-th insertion
+   put in and removes that entry and no other - whatever happened in between, re-use of its
+   storage slot included. *)
+Theorem c20_ipq_key_designates_its_entry :
+  forall (V : Type) (ops : list (ipq_op V)) (n : nat) (r : option (key * V)) (a' : pq V),
+    a_extract (a_exec V pq_empty ops) n = (r, a') ->
+    (r = None /\ a' = a_exec V pq_empty ops /\
+     forall x, In x (items (a_exec V pq_empty ops)) -> iepoch x <> N.of_nat n) \/
+    (exists k v, r = Some (k, v) /\ nth_error (inserts V ops) n = Some (k, v) /\
+                 (forall y, In y (items a') <-> In y (items (a_exec V pq_empty ops)) /\ iepoch y <> N.of_nat n) /\
+                 next_epoch a' = next_epoch (a_exec V pq_empty ops)).
+Proof. exact extract_designates_reachable. Qed.
+Print Assumptions c20_ipq_key_designates_its_entry.
+
+(* every queued entry is the one created by the insertion whose number is its epoch *)
+Theorem c20_ipq_entries_origin :
+  forall (V : Type) (ops : list (ipq_op V)), A V (a_exec V pq_empty ops) (inserts V ops).
+Proof. exact A_reachable. Qed.
+Print Assumptions c20_ipq_entries_origin.
+
+(* pull: least key, and among equal keys the entry inserted first *)
+Theorem c20_ipq_pull_least_first :
+  forall (V : Type) (a : pq V) k v (a' : pq V),
+    pq_pull a = (Some (k, v), a') ->
+    exists m, In m (items a) /\ PQ.ikey m = k /\ ival m = v /\
+      (forall y, In y (items a) -> key_le k (PQ.ikey y)) /\
+      (forall y, In y (items a) -> PQ.ikey y = k -> (iepoch m <= iepoch y)%N) /\
+      items a' = remove_epoch (iepoch m) (items a).
+Proof. exact pull_least_first. Qed.
+Print Assumptions c20_ipq_pull_least_first.
+
+(* non-vacuity: the slot of the first entry is re-used by the third insertion; the stale key 0
+   then designates nothing, key 2 designates the new entry, and equal keys come out in insertion
+   order *)
+Example c20_ipq_nonvacuous :
+  ipq_run (ipq_empty, [])
+    [IInsert (5, 0%N) 10; IInsert (3, 0%N) 11; IExtract 0; IExtract 0; IInsert (3, 0%N) 12; ILen;
+     IExtract 0; IPeek; IPull; IExtract 2; IPull]%Z
+  = [IRUnit; IRUnit; IRSome (5, 0%N) 10; IRNone; IRUnit; IRLen 2;
+     IRNone; IRSome (3, 0%N) 11; IRSome (3, 0%N) 11; IRSome (3, 0%N) 12; IRNone]%Z.
 Proof. vm_compute. reflexivity. Qed.
